@@ -374,6 +374,7 @@ func ndAssert(fr *frame, a []value) value {
 		}
 		t := i.nm(types.Bool, c.t)
 		atomic.AddInt64(&p.ex.res.AssertsChecked, 1)
+		p.ensureFresh()
 		p.sv.send("(push 1)")
 		p.sv.send("(assert " + mkNot(t) + ")")
 		t0 := time.Now()
@@ -400,9 +401,8 @@ func ndAssert(fr *frame, a []value) value {
 			p.ex.inconclusive("solver answered unknown for assertion " + id)
 		}
 		p.sv.send("(pop 1)")
-		if timedOut {
-			p.resync() // a session that timed out is not trusted again
-		}
+		_ = timedOut
+		p.ensureFresh() // a session that timed out or printed an error is not trusted again
 		// continue under the assertion (as an assumption) if that is feasible
 		if r != "unsat" {
 			if p.check(t) == "unsat" {
